@@ -115,7 +115,7 @@ def streams(draw, kind):
             start = b
         cuts = sorted(c for c in cuts if 0 < c < n)
     behaviours = draw(st.lists(st.sampled_from([None, None, None, "raise", 0.05, 0.5]), min_size=0, max_size=12))
-    yields = draw(st.sampled_from([0, 0, 0.001, 0.2]))
+    yields = draw(st.sampled_from([0, 0, 0.001, 0.2, 1.5]))
     settings = draw(st.sampled_from([{}, {}, {"exclude_pgns": [130306]}, {"include_pgns": [127250, 129029, 60928]}]))
     return packets, kinds, cuts, behaviours, yields, settings
 
@@ -135,6 +135,9 @@ def run_case(kind, packets, cuts, behaviours, yields, settings):
             if cut > pos:
                 link.feed(stream[pos:cut])
                 pos = cut
+                if yields >= 1:
+                    from ..common import CLOCK
+                    CLOCK.warp(yields)          # a quiet bus: the process clock moves along with the event-loop clock
                 await asyncio.sleep(yields)
         await asyncio.sleep(3.0 + sum(b for b in behaviours if isinstance(b, float)))
         s.final_state = c.state.name
